@@ -119,10 +119,25 @@ func opener(files map[string]string) source.Opener {
 	}
 }
 
+// yangPath is the one long-lived search path of the process (what source.Path("d1:d2") is for an application): two
+// places, the main modules with an odd number only in the second one, and an older lib in the second place that
+// the first place shadows.  Every load goes through it; what a load finds must not depend on the loads before it.
+var yangPath = func() source.Opener {
+	first := map[string]string{"lib": Lib}
+	second := map[string]string{"lib": strings.Replace(Lib, `default 50;`, `default 49;`, 1)}
+	for v := 0; v < 64; v++ {
+		if v%2 == 0 {
+			first[fmt.Sprintf("main%d", v)] = Main(v)
+		} else {
+			second[fmt.Sprintf("main%d", v)] = Main(v)
+		}
+	}
+	return source.Any(opener(first), opener(second))
+}()
+
 // LoadMain loads main<v> with its import and returns the canonical dump of the compiled schema.
 func LoadMain(v int) string {
-	files := map[string]string{"lib": Lib, fmt.Sprintf("main%d", v): Main(v)}
-	m, err := parser.LoadModule(opener(files), fmt.Sprintf("main%d", v))
+	m, err := parser.LoadModule(yangPath, fmt.Sprintf("main%d", v%64))
 	if err != nil {
 		return "ERR " + err.Error()
 	}
